@@ -71,7 +71,7 @@ pub fn run(args: &Args, out: &mut Streams, dist: &mut Dist, scratch: &Path) {
     let sats = (case + args.seed) % 2 == 0;
     let flags = Flags { sats, addr: sats, tx: false, ins: true, runes: sats };
     let ix = env::open(&node, scratch, flags, &[], false);
-    match env::update(&ix, Duration::from_secs(60)) {
+    match env::update(&ix, Duration::from_secs(300)) {
       env::UpdateOutcome::Ok => {}
       _ => panic!("index update failed"),
     }
